@@ -27,13 +27,30 @@ ORD = {"cmp", "partial_cmp", "lt", "le", "gt", "ge", "min", "max", "min_by", "mi
 # function names: renaming or splitting an internal function keeps the verdict, a NEW site in the file exceeds
 # the reviewed count and is reported.
 # (file, callee) -> (reviewed count, reason)
-ORD_TABLE = {
+ORD_CLASS = {}
+for _n in ("cmp", "partial_cmp", "lt", "le", "gt", "ge", "min", "max", "min_by", "min_by_key", "max_by", "max_by_key", "clamp"):
+    ORD_CLASS[_n] = "select"        # choosing / comparing by order: `min_by_key(k)` and a loop with `best_key <= key` are the same thing
+for _n in ("sort", "sort_by", "sort_by_key", "sort_unstable", "sort_unstable_by", "sort_unstable_by_key", "is_sorted", "dedup"):
+    ORD_CLASS[_n] = "sort"
+for _n in ("binary_search", "binary_search_by", "binary_search_by_key"):
+    ORD_CLASS[_n] = "search"
+
+ORD_TABLE_OLD = {
     ("src/egraph/mod.rs", "sort"): (1, "debug dump: slots of a class are sorted for display only (class-internal fresh names)"),
     ("src/egraph/mod.rs", "sort_by_key"): (1, "debug dump: classes sorted by Id"),
     ("src/egraph/mod.rs", "min_by_key"): (1, "canonical group variant: the key is the occurrence vector of the name-free weak shape (rule N1 checks exactly that)"),
     ("src/group/mod.rs", "min"): (1, "base point of the stabiliser chain: slots of a class are class-internal fresh names; any base point gives the same group"),
     ("src/slotmap.rs", "sort_by_key"): (1, "test-only representation check"),
     ("src/slotmap.rs", "binary_search_by_key"): (1, "representation invariant of SlotMap (C19): the order is internal, equality/lookup do not depend on it"),
+}
+
+# (file, operation class) -> (reviewed count, reason)
+ORD_TABLE = {
+    ("src/egraph/mod.rs", "sort"): (2, "debug dump: slots of a class are sorted for display only (class-internal fresh names); classes sorted by Id"),
+    ("src/egraph/mod.rs", "select"): (1, "canonical group variant: the key is the occurrence vector of the name-free weak shape (rule N1 checks exactly that)"),
+    ("src/group/mod.rs", "select"): (1, "base point of the stabiliser chain: slots of a class are class-internal fresh names; any base point gives the same group"),
+    ("src/slotmap.rs", "sort"): (1, "test-only representation check"),
+    ("src/slotmap.rs", "search"): (1, "representation invariant of SlotMap (C19): the order is internal, equality/lookup do not depend on it"),
 }
 
 # file -> (reviewed count of name-inventing iterations over sorted slot sets, reason)
@@ -54,6 +71,19 @@ def n1(ctx):
     for fid in C.need("canonical-variant", canonical_variant_functions(crate)):
         b = crate.bodies[fid]
         mins = [c for c in b.calls if c.callee and c.callee.name in ("min_by_key", "min_by", "min") and not b.blocks[c.bb]["cleanup"]]
+        if not mins:
+            # loop form: `if best_key <= key` with both keys = all_slot_occurrences(weak_shape(variant).0)
+            cmps = [c for c in b.calls if c.callee and c.callee.name in ("lt", "le", "gt", "ge", "cmp", "partial_cmp") and len(c.args) == 2 and not b.blocks[c.bb]["cleanup"]]
+            ctx.floor("minimisations in " + C.short(fid), len(cmps), 1)
+            for c in cmps:
+                rs = [b.role_of_operand(a) for a in c.args]
+                ok = all(role_mentions_call(r, "weak_shape") and any(isinstance(x, tuple) and x[0] == "call" and x[1] in ("all_slot_occurrences", "slots", "public_slot_occurrences") and all(role_mentions_call(a_, "weak_shape") for a_ in x[3]) for x in role_walk(r)) for r in rs)
+                ctx.check(ok, "key-is-name-free:" + C.fkey(b), "the canonical variant minimises the occurrence vector of the weak shape (loop form)",
+                          "the canonical group variant of a node is chosen by comparing %s: the choice depends on the node's slot NAMES" % [role_str(r)[:60] for r in rs], where_of(b, c.bb))
+                lps = [l for l in C.iterator_loops(b) if any("variants" in x[1] for x in role_walk(l[1]) if isinstance(x, tuple) and x[0] == "call")]
+                ctx.check(bool(lps) and all(C.loop_exhaustive(b, l) for l in lps), "minimises-over-all-variants:" + C.fkey(b), "the minimum ranges over all group-compatible variants",
+                          "the loop choosing the canonical variant does not range over all group-compatible variants", where_of(b, c.bb))
+            continue
         ctx.floor("minimisations in " + C.short(fid), len(mins), 1)
         for c in mins:
             ok = False
@@ -101,8 +131,9 @@ def n3(ctx):
     ctx.floor("class allocation sites", n, 1)
     bf = crate.method("slotmap::SlotMap", "bijection_from_fresh_to")
     if bf:
-        ins = [c for c in bf[0].calls if c.callee and c.callee.name == "insert"]
-        ok = len(ins) == 1 and strip_role(bf[0].role_of_operand(ins[0].args[1]))[0] == "call" and strip_role(bf[0].role_of_operand(ins[0].args[1]))[1] == "fresh"
+        from .c19 import result_pairs
+        ps = [(k, v) for k, v, _, _, _ in result_pairs(crate, bf[0])]
+        ok = len(ps) == 1 and ps[0][0] == ("fresh",)
         ctx.check(ok, "fresh-keys", "bijection_from_fresh_to maps Slot::fresh() -> x", "bijection_from_fresh_to no longer uses Slot::fresh() for its keys", where_of(bf[0]))
 
 
@@ -122,7 +153,7 @@ def n4(ctx):
             if not re.search(r"slot::Slot|SlotMap|AppliedId|\bL\b|VecSet|types::Id\b", tys):
                 continue
             n += 1
-            seen.setdefault((b.file, c.callee.name), []).append((root, b, c, tys))
+            seen.setdefault((b.file, ORD_CLASS.get(c.callee.name, c.callee.name)), []).append((root, b, c, tys))
     for (file, cal), sites in sorted(seen.items(), key=lambda x: (str(x[0][0]), x[0][1])):
         ent = ORD_TABLE.get((file, cal))
         if ent is not None and len(sites) <= ent[0]:
